@@ -25,7 +25,7 @@
     value position, the [safe_stmts] fragment of DESIGN A.2) and chained comparisons whose last
     operand is lifted; these are covered by the CFG-equality tie and the semantic search only. *)
 From Coq Require Import ZArith List Bool.
-From V.C03 Require Import PyAst PySem Cfg CfgSem Builder Encode Frag Witness ProofsRefute ProofsBase ProofsExpr ProofsBranch ProofsBuild ProofsLoopElse.
+From V.C03 Require Import PyAst PySem Cfg CfgSem Builder Encode Frag Witness ProofsRefute ProofsBase ProofsExpr ProofsBranch ProofsBuild ProofsLoopElse Lift ProofsSim ProofsLiftA ProofsLiftC ProofsLiftE.
 Import ListNotations.
 
 (* v1 = (v0 + (v0 := 5)): Python adds the old v0, the CFG computes 5 + 5 *)
@@ -160,3 +160,67 @@ Theorem build_accepts_no_loop_else_thm : forall p returns_none g s,
   build p returns_none = BOk g s -> no_loop_else_list p = true.
 Proof. exact build_accepts_no_loop_else. Qed.
 Print Assumptions build_accepts_no_loop_else_thm.
+
+(* ---------------------------------------------------------------------------------------- *)
+(* Lifted expressions (and/or as values, conditional expressions, walrus, chained comparison as a
+   value) on the decidable fragment [lsafe_val] / [lsafe_cond] of Lift.v (= order_safe of DESIGN
+   A.2 with lift-free chain operands), for sources without %tmp names ([nt]).  The CFG state
+   [stc] and the Python state [stp] are related by [sim]: same call trace, same user variables
+   (temporaries are free).
+
+   ExprBuilder.build: the blocks the builder adds run from the end of block bb to the end of
+   block bb' (Python's order of the lifted parts), changing only walrus targets and the new
+   temporaries n..n'; evaluating the residual expression e' there yields Python's value and a
+   related state. *)
+Theorem expr_build_preserves_safe_partial : forall oracle e bb g n e' bb' s',
+  build_expr e bb (mkB g n) = BOk (e', bb') s' ->
+  lsafe_val e = true -> nt e = true -> opn g bb -> bb <> exit_idx -> exit_idx < length g ->
+  exists g' n', s' = mkB g' n' /\ grows g bb g' /\ n <= n' /\ opn g' bb' /\
+    forall G, ext g' G -> forall stc stp v stp1 ret,
+      sim stc stp -> eval oracle e stp = Done (v, stp1) ->
+      exists stm, steps oracle G (mkConfig bb (slen g bb) stc ret) (mkConfig bb' (slen g' bb') stm ret) /\
+        mods (wtargets e) n n' stc stm /\
+        exists stc1, eval oracle e' stm = Done (v, stc1) /\ sim stc1 stp1.
+Proof.
+  intros oracle e bb g n e' bb' s' B LS N O Nb Ne.
+  destruct (proj1 (proj1 (lift_all oracle) e) bb g n e' bb' s' B LS N O Nb Ne) as (g'&n'&Eq&Gr&Ln&O'&_&_&Sem).
+  exists g', n'. repeat (split; auto).
+  intros G E stc stp v stp1 ret S X.
+  destruct (Sem G E stc stp v stp1 ret S X) as (stm&T&M&R&_). exists stm. auto.
+Qed.
+Print Assumptions expr_build_preserves_safe_partial.
+
+(* BranchBuilder.add_branch on conditions whose leaves may contain lifted expressions *)
+Theorem branch_build_preserves_safe_partial : forall oracle e bb t f g n s',
+  build_branch e bb t f (mkB g n) = BOk tt s' ->
+  lsafe_cond e = true -> nt e = true ->
+  opn g bb -> bb <> exit_idx -> exit_idx < length g -> t < length g -> f < length g -> t <> bb -> f <> bb ->
+  exists g' n', s' = mkB g' n' /\ grows g bb g' /\ n <= n' /\
+    forall G, ext g' G -> forall stc stp b stp' ret,
+      sim stc stp -> eval_truth oracle e stp = Done (b, stp') ->
+      exists stc', steps oracle G (mkConfig bb (slen g bb) stc ret) (mkConfig (if b then t else f) 0 stc' ret) /\
+        sim stc' stp'.
+Proof.
+  intros oracle e bb t f g n s' B LS N O Nb Ne Lt Lf Nt Nf.
+  destruct (proj2 (proj1 (lift_all oracle) e) bb t f g n s' B LS N O Nb Ne Lt Lf Nt Nf) as (g'&n'&Eq&Gr&Ln&Sem).
+  exists g', n'. repeat (split; auto).
+  intros G E stc stp b stp' ret S X.
+  destruct (Sem G E stc stp b stp' ret S X) as (stc'&T&S'&_). exists stc'. auto.
+Qed.
+Print Assumptions branch_build_preserves_safe_partial.
+
+(* satisfiable on: f0(v1 if v0 < 3 else (v1 != 0 and v0 == 1), (v0 < v1 < 9) or ((v2 := v3) == 1)) *)
+Definition ex_lifted : expr :=
+  ECall 0 (ECons (EIf (ECmp (v 0) (CLast CLt (i 3))) (v 1)
+                      (EBool BoAnd (ECmp (v 1) (CLast CNe (i 0))) (ECmp (v 0) (CLast CEq (i 1)))))
+          (ECons (EBool BoOr (ECmp (v 0) (CMore CLt (v 1) (CLast CLt (i 9))))
+                             (ECmp (EWalrus 2 (v 3)) (CLast CEq (i 1)))) ENil)).
+Example lifted_hypotheses_satisfiable :
+  lsafe_val ex_lifted = true /\ nt ex_lifted = true /\ lift_free ex_lifted = false /\
+  (exists r s', build_expr ex_lifted 0 (mkB [empty_block; empty_block] 0) = BOk r s') /\
+  (exists v st', eval test_oracle ex_lifted st0 = Done (v, st')).
+Proof.
+  split. { reflexivity. } split. { reflexivity. } split. { reflexivity. }
+  split. { eexists. eexists. vm_compute. reflexivity. }
+  eexists. eexists. vm_compute. reflexivity.
+Qed.
